@@ -405,6 +405,11 @@ class SelFromPlot:
         """
         sorted_indices = np.argsort(self.sel_freq)
         self.sel_freq = list(np.array(self.sel_freq)[sorted_indices])
+        # keep the order (or line) indices paired with their frequencies
+        if self.plot in ("SSI", "pLSCF"):
+            self.pole_ind = [self.pole_ind[i] for i in sorted_indices]
+        elif self.plot == "FDD":
+            self.freq_ind = [self.freq_ind[i] for i in sorted_indices]
 
     def show_help(self) -> None:
         """
